@@ -69,6 +69,12 @@ Inductive cnkind : Type :=
 | CnLocked (sp : phase)    (* one model handle; the chemical is locked at phase sp *)
 | CnPlain.                 (* neither (no heat capacity given): H and S end as None *)
 
+(* names of the model handles copy_models_from can copy, as far as the wiring is concerned *)
+Inductive mname : Type := MCn | MHvap | MOther.
+Definition mname_eqb (a b : mname) : bool :=
+  match a, b with MCn, MCn | MHvap, MHvap | MOther, MOther => true | _, _ => false end.
+Definition mname_mem (n : mname) (l : list mname) : bool := existsb (mname_eqb n) l.
+
 Section PyOps.
 Context {A : Type} (O : Ops A).
 
